@@ -122,6 +122,10 @@ func JS(ops []Op) string {
 			// (extended interpreter) the matcher is handed a value nested a million deep: every recursive reader of it
 			// (the JSON encoder first) would exhaust the stack, which ends the process
 			b.WriteString("var d__ = []; for (var i__ = 0; i__ < 1000000; i__++) { d__ = [d__]; } _.match(d__, {}, {});\n")
+		case "retdeepshared":
+			// one nested value used twice in what is returned, the second time deep inside: with mach.MaxDepth (60) as the
+			// interpreter's limit the first use is within the limit and the second is not
+			b.WriteString("function nest__(x, n) { for (var i = 0; i < n; i++) { x = [x]; } return x; } var seg__ = nest__(1, 40); _.bindings[\"k\"] = [seg__, nest__(seg__, 40)]; return _.bindings;\n")
 		case "retgetterbad":
 			// a returned object whose getter throws a value that cannot be rendered (its toString throws it again)
 			b.WriteString("var bad__ = {toString: function() { throw bad__; }}; var r__ = {}; Object.defineProperty(r__, \"x\", {enumerable: true, get: function() { throw bad__; }}); return r__;\n")
@@ -207,7 +211,7 @@ func Native(ops []Op, partial, inplace bool) func(context.Context, match.Binding
 				}
 			case "throw", "emitbad", "retgetter", "throwobj", "retgetterbad":
 				return fail(errBoom)
-			case "retscalar", "retcyclic", "retcyclicobj", "retnan", "matchdeep":
+			case "retscalar", "retcyclic", "retcyclicobj", "retnan", "matchdeep", "retdeepshared":
 				return fail(errors.New("42 (int64) isn't Bindings (native)"))
 			case "loop":
 				select {
@@ -238,7 +242,12 @@ func actionSource(ops []Op) *core.ActionSource {
 	return &core.ActionSource{Interpreter: "ecmascript", Source: JS(ops)}
 }
 
+// MaxDepth is what the drivers set the interpreter's limit on the nesting of returned and emitted values to (the values of
+// the action language are a handful of levels deep; the retdeepshared op needs a limit it can reach cheaply)
+const MaxDepth = 60
+
 func init() {
+	ecmascript.MaxDepth = MaxDepth
 	// the extended interpreter (_.match and friends), as interpreters.Standard registers it
 	ext := ecmascript.NewInterpreter()
 	ext.Extended = true
